@@ -175,3 +175,30 @@ H2SKIP = ("cancel-native", "random")
 add(Scenario("h2-max1-AA", dict(max_connections=1, **H2), [c("r1", A + "/1"), c("r2", A + "/2")], world=world_h2, enc={"h2_origins": [0]}, skip=H2SKIP))
 add(Scenario("h2-max1-BAB", dict(max_connections=1, **H2), [c("r1", B + "/1", gates=("read",)), c("r2", A + "/2"), c("r3", B + "/3")], world=world_h2, enc={"h2_origins": [0, 1]}, skip=H2SKIP + ("cancel-scope",)))
 add(Scenario("h2-max1-AAB", dict(max_connections=1, **H2), [c("r1", A + "/1"), c("r2", A + "/2"), c("r3", B + "/3")], world=world_h2, enc={"h2_origins": [0, 1]}, skip=H2SKIP + ("cancel-scope",)))
+
+
+# ---- connections through proxies (forwarding, CONNECT tunnel, SOCKS5) ----------------------
+PROXY = "http://proxy.test:8080"
+SOCKS = "socks5://proxy.test:1080"
+
+
+def world_proxy():
+    from .peers import TunnelPeer
+
+    return World(default=lambda rec: TunnelPeer(inner_factory=lambda host, port: PlanPeer(), alpn="http/1.1"))
+
+
+def world_socks():
+    from .peers import SocksPeer
+
+    return World(default=lambda rec: SocksPeer(inner_factory=lambda host, port: PlanPeer()))
+
+
+def _proxy_kw(url, **kw):
+    return dict(proxy=httpcore.Proxy(url), **kw)
+
+
+PXSKIP = ("cancel-native", "random")
+add(Scenario("fwd-max1-AAB", _proxy_kw(PROXY, max_connections=1), [c("r1", A + "/1"), c("r2", A + "/2"), c("r3", B + "/3")], world=world_proxy, enc={"proxy_origin": PROXY}, skip=PXSKIP))
+add(Scenario("tun-max1-AAB", _proxy_kw(PROXY, max_connections=1), [c("r1", SA + "/1"), c("r2", SA + "/2"), c("r3", "https://b.test/3")], world=world_proxy, enc={"proxy_origin": PROXY}, skip=PXSKIP))
+add(Scenario("socks-max1-AAB", _proxy_kw(SOCKS, max_connections=1), [c("r1", SA + "/1"), c("r2", A + "/2"), c("r3", SA + "/3")], world=world_socks, enc={"proxy_origin": "socks5://proxy.test:1080"}, skip=PXSKIP))
